@@ -58,8 +58,7 @@ theorem meta_roundtrip_riff (period : Nat) (h : MetaState) (w : WithinRiff perio
   unfold reopenNow normaliseRiff reopen
   have hs : (if (h.strings.flags &&& SF_STR_LOCATE_START) ≠ 0 ∧ locationCount h.strings SF_STR_LOCATE_START ≠ 0
                 then parseInfo (writeStrings h.strings SF_STR_LOCATE_START) else []) ++
-            (if (h.strings.flags &&& SF_STR_LOCATE_END) ≠ 0 ∧ locationCount h.strings SF_STR_LOCATE_END ≠ 0 ∧
-                ¬ (h.cont = .rf64 ∧ h.audio.length % 2 = 1)
+            (if (h.strings.flags &&& SF_STR_LOCATE_END) ≠ 0 ∧ locationCount h.strings SF_STR_LOCATE_END ≠ 0
                 then parseInfo (writeStrings h.strings SF_STR_LOCATE_END) else [])
             = entriesOf h.strings SF_STR_LOCATE_START := by
     rw [if_pos ⟨hA1, hA2⟩, if_neg (by simp [hB])]
